@@ -174,6 +174,16 @@ def check(prop, tier, seed):
         raise ToolError(f'Health: {r.get("violated")} {r.get("never_taken")}\n' + r.get('output_tail', '')[-2500:])
     mc.append(r)
     mc.append(core.tlc_mc('Health', 'MC_Health_replace.cfg', workers=4, expect_violation='EndsOnlyAfterClear'))
+    # unbounded: TLAPS proof of the two safety clauses for any services, statuses and bounds
+    pr = core.tlapm_check('HealthProof', ['Health'])
+    if not pr['ok']:
+        raise ToolError('tlapm: the safety proof of Health.tla (HealthProof.tla) no longer goes through:\n' + pr.get('output_tail', ''))
+    cov['tlaps_proof'] = {'theorem': 'Spec => [](OnlySetValues /\\ EndsOnlyAfterClear) for all Svcs, Stats, MaxOps, MaxW', 'obligations_proved': pr['obligations'], 'wall_s': pr['wall_s']}
+    if tier == 'thorough':
+        neg = core.tlapm_check('HealthProof', ['Health'], name='HealthProof_neg', mutate=lambda t: t.replace('SendOnExisting = TRUE', 'SendOnExisting \\in BOOLEAN'))
+        if neg['ok']:
+            raise ToolError('tlapm proved the safety theorem without assuming SendOnExisting: the proof is vacuous')
+        cov['tlaps_proof']['without_send_on_existing'] = 'proof fails (as it must)'
     n = 4000 if tier == 'thorough' else 600
     rows, st = core.tlc_export('Gen_Health', 'Gen_Health.cfg', workers=1, simulate=f'num={n}', seed=seed, timeout=1200)
     mc.append(st)
@@ -205,7 +215,7 @@ def check(prop, tier, seed):
                           'concurrent families: (a) preemption rounds - tokio\'s cooperative budget forces a yield at a chosen await inside an operation, deterministic; (b) rounds on an 8-worker runtime - which interleavings occur there is up to the machine',
                           'a Watch response stream is a pull pipeline that may fetch several items ahead of the caller (EncodeBody batching): Trace_HealthLin models it as a queue filled while a next call is in progress',
                           'the first item of a watch stream may be the status current at subscription or any newer one (the stream reads at first poll)'],
-                         'tlc MC_Health*.cfg, Gen_Health.cfg (-simulate); vh health; tlc Trace_Health.cfg; tlc Trace_HealthMech.cfg; tlc Trace_HealthLin.cfg')
+                         'tlc MC_Health*.cfg, Gen_Health.cfg (-simulate); tlapm HealthProof.tla; vh health; tlc Trace_Health.cfg; tlc Trace_HealthMech.cfg; tlc Trace_HealthLin.cfg')
 
 
 def replay(prop, path):
